@@ -30,6 +30,10 @@ pub struct Model {
     pub body: Vec<u8>,
     pub has_body: bool,
     pub peer: String,
+    /// what follows the colon of the header lines: 0 one space everywhere, 1 nothing, 2 a tab,
+    /// 3 two spaces, 4 a different one of these per line (optional whitespace, RFC 7230 3.2)
+    #[serde(default)]
+    pub sep_style: u8,
 }
 
 impl Model {
@@ -53,8 +57,12 @@ impl Model {
     pub fn render(&self) -> Vec<u8> {
         let target = if self.query.is_empty() { self.path.clone() } else { format!("{}?{}", self.path, self.query) };
         let mut b = format!("{} {} {}\r\n", self.method, target, self.version).into_bytes();
-        for (k, v) in self.wire_headers() {
-            b.extend(format!("{}: {}\r\n", k, v).bytes());
+        for (i, (k, v)) in self.wire_headers().into_iter().enumerate() {
+            let sep = [": ", ":", ":\t", ":  "][match self.sep_style % 5 {
+                4 => (i * 7 + k.len()) % 4,
+                x => x as usize,
+            }];
+            b.extend(format!("{}{}{}\r\n", k, sep, v).bytes());
         }
         b.extend(b"\r\n");
         if self.has_body {
@@ -320,6 +328,7 @@ pub fn gen_model(rng: &mut Rng, tier: Tier) -> Model {
         body: rng.bytes(blen),
         has_body,
         peer: format!("{}:{}", if rng.chance(1, 4) { "[::1]".to_string() } else { format!("10.0.{}.{}", rng.below(256), rng.below(256)) }, rng.range(1024, 65535)),
+        sep_style: if rng.chance(1, 3) { 1 + rng.below(4) as u8 } else { 0 },
     }
 }
 
@@ -351,7 +360,7 @@ impl Prop for C02 {
         }
     }
     fn rule(&self) -> &'static str {
-        "One run = one generated well-formed request model (5 methods, origin-form path incl. percent-escapes and UTF-8, optional query, 0..60 headers with repeated names in random case and > 20 headers, values with UTF-8 / colons / inner spaces, lines > 8 KiB, a Cookie list (also names ending in another cookie's name and values containing another cookie's `name=`; every name, suffix and an absent name is looked up with get_cookie), an X-Forwarded-For list with ',' or ', ' separators over IPv4/IPv6, Content-Length body 0..64 KiB of arbitrary bytes) parsed under read plans: whole, one byte per read, EVERY two-chunk split point (messages <= 2 KiB; 40 random split points above), 3 random chunkings, EINTR before reads; then serialised and parsed again. Distinct non-trivial case = distinct (model, plan kind) with at least one header or a body; evaluations = parser calls."
+        "One run = one generated well-formed request model (5 methods, origin-form path incl. percent-escapes and UTF-8, optional query, 0..60 headers with repeated names in random case and > 20 headers, values with UTF-8 / colons / inner spaces (so also colon-space inside a value), the colon of a header line followed by one space, none, a tab or two spaces, lines > 8 KiB, a Cookie list (also names ending in another cookie's name and values containing another cookie's `name=`; every name, suffix and an absent name is looked up with get_cookie), an X-Forwarded-For list with ',' or ', ' separators over IPv4/IPv6, Content-Length body 0..64 KiB of arbitrary bytes) parsed under read plans: whole, one byte per read, EVERY two-chunk split point (messages <= 2 KiB; 40 random split points above), 3 random chunkings, EINTR before reads; then serialised and parsed again. Distinct non-trivial case = distinct (model, plan kind) with at least one header or a body; evaluations = parser calls."
     }
     fn assumptions(&self) -> Vec<String> {
         vec![
